@@ -317,6 +317,13 @@ int ubuf_pic_common_split_fields(struct ubuf *ubuf, struct ubuf **odd,
     for (int i = 0; i < 2; i++) {
         struct ubuf *field = i ? *odd : *even;
         struct ubuf_pic_common *pic_common = ubuf_pic_common_from_ubuf(field);
+        struct ubuf_pic_common_mgr *common_mgr =
+            ubuf_pic_common_mgr_from_ubuf_mgr(ubuf->mgr);
+        /* the lines in front of the picture are skipped in the plane pointers
+         * below: they cannot be counted in lines of the field */
+        size_t vprepend = pic_common->vprepend;
+        pic_common->vprepend = 0;
+        pic_common->vappend = 0;
         pic_common->vsize /= 2;
 
         const char *chroma = NULL;
@@ -328,7 +335,8 @@ int ubuf_pic_common_split_fields(struct ubuf *ubuf, struct ubuf **odd,
 
             struct ubuf_pic_common_plane *p = &pic_common->planes[plane];
             size_t stride = p->stride;
-            uint8_t *buffer = p->buffer;
+            uint8_t *buffer = p->buffer +
+                vprepend / common_mgr->planes[plane]->vsub * stride;
             if (i)
                 buffer += stride;
             ubuf_pic_common_plane_init(field, plane, buffer, 2 * stride);
